@@ -93,13 +93,39 @@ func c03Run(path string, cs c03Case) ([]string, error) {
 	ctx, cancel := vcontext.WithCancel(vcontext.Background())
 	defer cancel()
 	ltx := lcontext.LContext{BeforeContext: cs.Before, AfterContext: cs.After, MaxCount: cs.Max}
-	if err := fs.NewCatFile(path, "f", msgs).Start(ctx, ltx, lines, re); err != nil {
-		return nil, err
-	}
 	var got []string
-	for lines.Len("drain") > 0 {
-		l := lines.Recv("drain")
-		got = append(got, l.Content.String())
+	if len(cs.Word) < 100 {
+		// everything fits into the queue: receive after the reader has returned
+		if err := fs.NewCatFile(path, "f", msgs).Start(ctx, ltx, lines, re); err != nil {
+			return nil, err
+		}
+		for lines.Len("drain") > 0 {
+			l := lines.Recv("drain")
+			got = append(got, l.Content.String())
+		}
+		return got, nil
+	}
+	// long files: a consumer receives while the reader works
+	stop := vrt.Make[struct{}]("stopConsumer", 0)
+	drained := vrt.Make[struct{}]("consumerDone", 0)
+	vrt.Go("consumer", func() {
+		defer drained.Close("consumerDone")
+		for {
+			cl, cs := lines.RecvCase(), stop.RecvCase()
+			if vrt.Select("consumer", false, cl, cs) == 1 {
+				break
+			}
+			got = append(got, cl.V.Content.String())
+		}
+		for lines.Len("drain") > 0 {
+			got = append(got, lines.Recv("drain").Content.String())
+		}
+	})
+	err = fs.NewCatFile(path, "f", msgs).Start(ctx, ltx, lines, re)
+	stop.Close("stop")
+	drained.Recv("wait-consumer")
+	if err != nil {
+		return nil, err
 	}
 	return got, nil
 }
@@ -132,6 +158,11 @@ func c03Check(c *Ctx, path string, cs c03Case) {
 	}
 	if err != nil || strings.Join(got, "") != strings.Join(wantS, "") || len(got) != len(wantS) {
 		sig := "wrong-selection"
+		if len(lines) > 30 {
+			c.Violation(sig, fmt.Sprintf("file of %d lines (word %s: M = matching line, U = other), pattern %q invert=%v before=%d after=%d max=%d: got %d lines, want %d (err %v)",
+				len(lines), c03Compress(cs.Word), cs.Pattern, cs.Invert, cs.Before, cs.After, cs.Max, len(got), len(wantS), err), c03Case{Word: c03Compress(cs.Word), Pattern: cs.Pattern, Invert: cs.Invert, Before: cs.Before, After: cs.After, Max: cs.Max})
+			return
+		}
 		c.Violation(sig, fmt.Sprintf("file lines %q, pattern %q invert=%v before=%d after=%d max=%d: got %q, want %q (err %v)",
 			lines, cs.Pattern, cs.Invert, cs.Before, cs.After, cs.Max, got, wantS, err), cs)
 	}
@@ -191,11 +222,58 @@ func c03RunWord(c *Ctx, word string, full bool) {
 	}
 }
 
+// c03RunLong: files longer than the reader's internal queues (100 raw lines, 100 delivered lines) with context
+// sizes below, at and above those capacities.
+func c03RunLong(c *Ctx, word string) {
+	var sb strings.Builder
+	for _, l := range c03Lines(word) {
+		sb.WriteString(l + "\n")
+	}
+	path := WriteScratch(fmt.Sprintf("c03/long-%d-%d.txt", len(word), strings.Count(word, "M")), sb.String())
+	res := vrt.Run(vrt.Config{MaxSteps: 50000000, Horizon: 100 * time.Hour}, func() {
+		args := DefaultArgs()
+		args.Logger = "none"
+		args.LogLevel = "error"
+		StartEnv(source.Server, &args, nil)
+		for _, b := range []int{0, 99, 100, 101, 120, 250} {
+			for _, a := range []int{0, 1, 100, 101, 130} {
+				for _, m := range []int{0, 1, 2} {
+					for _, inv := range []bool{false, true} {
+						c03Check(c, path, c03Case{Word: word, Pattern: " M ", Invert: inv, Before: b, After: a, Max: m})
+					}
+				}
+			}
+		}
+	})
+	if res.Fail != nil {
+		c.Violation("reader-failure-"+res.Fail.Kind, fmt.Sprintf("long word (%d lines): %v", len(word), res.Fail), map[string]string{"word": word})
+	}
+}
+
+// c03Compress renders a long word run-length encoded (U150 M1).
+func c03Compress(w string) string {
+	var sb strings.Builder
+	for i := 0; i < len(w); {
+		j := i
+		for j < len(w) && w[j] == w[i] {
+			j++
+		}
+		fmt.Fprintf(&sb, "%c%d ", w[i], j-i)
+		i = j
+	}
+	return strings.TrimSpace(sb.String())
+}
+
+func c03LongWords() []string {
+	u := func(n int) string { return strings.Repeat("U", n) }
+	return []string{u(150) + "M", "M" + u(150), u(99) + "M" + u(120) + "M" + u(5), u(101) + "MM" + u(101) + "M", "M" + u(100) + "M" + u(100) + "M", u(260) + "M" + u(140)}
+}
+
 func init() {
 	Register(&Check{
 		ID:    "C03",
 		Level: "exploration",
-		Rule: "files are all words over {matching line, non-matching line} up to length 6 (quick) / 9 (thorough); for each word the full product " +
+		Rule: "files are all words over {matching line, non-matching line} up to length 8 (quick) / 11 (thorough), plus 6 files of 150-400 lines (longer than the reader's internal queues of 100) with before in {0,99,100,101,120,250} x after in {0,1,100,101,130} x max in {0,1,2}; for each word the full product " +
 			"before x after x max in {0,1,2,3,9}^3 x invert, plus 20 further patterns (anchored at one or both ends incl. whole-line literals, a class, flags, alternation, the no-op spellings '', '.', '.*', patterns with leading/trailing blanks) on 6 contexts; the real CatFile reader " +
 			"(regex passed through Serialize/Deserialize as on the wire) runs under the controlled scheduler and is compared with the reference selector of the statement; " +
 			"non-trivial = expected output is neither empty nor the whole file",
@@ -207,6 +285,11 @@ func init() {
 			n := 8
 			if c.Thorough() {
 				n = 11
+			}
+			for _, w := range c03LongWords() {
+				if c.Mine() && !c.Expired() {
+					c03RunLong(c, w)
+				}
 			}
 			for _, w := range c03Words(n) {
 				if !c.Mine() {
